@@ -1,6 +1,7 @@
 // C12 — readers deliver exactly the addressed bytes and fail atomically at bounds.
 // Model = (window bytes, cursor).  Histories decoded from 10-byte op records.
 #include "common/verif.h"
+#include <unistd.h>
 #include "Stream/MemoryReader.h"
 #include "Stream/FileReader.h"
 #include "Stream/SliceReader.h"
@@ -370,6 +371,7 @@ Decoded decode(Tape& t) {
 	size_t flen = t.pick<uint32_t>({0, 1, 2, 5, 8, 16, 33, 64, 64, 64}) ;
 	if (t.flag()) flen = t.below(maxlen + 1);
 	if (!g_thorough && t.below(8) == 0) flen = 256 + t.below(450);   // room behind 8-bit prefixes re-read as unsigned
+	if (t.below(24) == 0) flen = 8100 + t.below(12000);   // windows straddling the 4096 / 8192 boundaries of a file buffer
 	d.full = t.bytes(flen > 300 ? 300 : flen);
 	if (flen > 300) { auto more = t.expand(flen - 300); d.full.insert(d.full.end(), more.begin(), more.end()); }
 	// plant size prefixes / terminators so that typed helpers meet interesting encoded sizes
@@ -477,6 +479,34 @@ void run_sweep(Stats& st) {
 			try { exec_history(Kind(k), src, w.a, w.n, w.a2, w.n2, ops, st, false); }
 			catch (const Violation&) { g_file_valid = false; exec_history(Kind(k), src, w.a, w.n, w.a2, w.n2, ops, st, true); throw; }
 		}
+	}
+	// file slices far into a sparse file: starting offsets beyond 2^31 and 2^32 (a 32-bit offset anywhere would alias low addresses)
+	{
+		std::string bp = scratch_path("c12_big.bin");
+		const uint64_t offs[] = {(uint64_t(1) << 31) + 5, (uint64_t(1) << 32) + 100, (uint64_t(1) << 32) - 11};   // the last window straddles 2^32
+		{ FILE* f = fopen(bp.c_str(), "wb"); if (!f) { perror("big"); _exit(2); }
+		  const char low[] = "low-address-bytes-must-never-show-up-here!"; fwrite(low, 1, sizeof low, f);
+		  for (uint64_t o : offs) { fseeko(f, off_t(o), SEEK_SET); for (int i = 0; i < 24; ++i) fputc(int(0x80 + i + (o >> 28)), f); }
+		  fclose(f); }
+		for (unsigned oi = 0; oi < 3; ++oi) {
+			if (!sw("big_offset", oi)) continue;
+			uint64_t o = offs[oi]; uint8_t want[24]; for (int i = 0; i < 24; ++i) want[i] = uint8_t(0x80 + i + (o >> 28));
+			Stream::FileReader f(bp);
+			auto sl = f.Slice(o + 2, 16);
+			V_CHECK(sl.Length() == 16 && sl.Position() == 0, "file slice at offset " << o + 2 << ": Length " << sl.Length() << " Position " << sl.Position());
+			uint8_t buf[32]; sl.Read(buf, 16);
+			V_CHECK(memcmp(buf, want + 2, 16) == 0 && sl.Position() == 16, "file slice at offset " << o + 2 << " delivered other bytes: " << hex(buf, 16));
+			V_CHECK(guarded([&] { sl.Read(buf, 1); }) == Out::Err && sl.Position() == 16, "read past a far file slice");
+			sl.SeekBackward(10); V_CHECK(sl.Position() == 6, "SeekBackward on a far file slice");
+			size_t got = sl.ReadPartial(buf, 30); V_CHECK(got == 10 && memcmp(buf, want + 8, 10) == 0, "ReadPartial on a far file slice returned " << got);
+			V_CHECK(guarded([&] { sl.Seek(17); }) == Out::Err && sl.Position() == 16, "Seek beyond a far file slice");
+			sl.Seek(3); sl.Peek(buf, 4); V_CHECK(memcmp(buf, want + 5, 4) == 0 && sl.Position() == 3, "Peek on a far file slice");
+			auto inner = sl.Slice(4, 8); inner.Read(buf, 8); V_CHECK(memcmp(buf, want + 6, 8) == 0 && sl.Position() == 3, "nested slice of a far file slice");
+			V_CHECK(guarded([&] { sl.Slice(9, 8); }) == Out::Err, "nested slice leaving a far file slice was created");
+			auto cur = sl.Slice(5); cur.SeekEnd(); cur.SeekBackward(5); cur.Read(buf, 5); V_CHECK(memcmp(buf, want + 5, 5) == 0 && sl.Position() == 8, "Slice(n) of a far file slice");
+			st.cls("big_offset_slice");
+		}
+		remove(bp.c_str());
 	}
 	st.exhaustive = true;
 	st.cls("sweep_alphabet_size", alphabet.size());
